@@ -70,4 +70,4 @@ require (
 // Can be removed once https://github.com/CrowdStrike/csproto/pull/208 is merged and released
 replace github.com/CrowdStrike/csproto => github.com/wojas/csproto v0.0.0-20260107092112-0e013c7984a2
 require github.com/PowerDNS/lightningstream v0.0.0
-replace github.com/PowerDNS/lightningstream => /tmp/repo3
+replace github.com/PowerDNS/lightningstream => /repo
